@@ -38,6 +38,9 @@ def fam_quantizers(fam, rnd):
     return (Qd("quantized_bits", bits=rnd.choice([3, 4, 6]), integer=rnd.choice([0, 1]), symmetric=1, alpha=1.0),
             Qd("quantized_bits", bits=6, integer=2, symmetric=1, alpha=1.0))
   if fam == "po2":
+    if rnd.random() < 0.25:      # quadratic approximation: the stored exponents are even and may leave the declared range
+      return (Qd("quantized_po2", bits=rnd.choice([4, 5]), quadratic_approximation=True),
+              rnd.choice([Qd("quantized_po2", bits=4), Qd("quantized_bits", bits=6, integer=2, symmetric=1, alpha=1.0)]))
     return (Qd("quantized_po2", bits=rnd.choice([3, 4, 8]), max_value=rnd.choice([None, 2.0])),
             rnd.choice([Qd("quantized_po2", bits=4), Qd("quantized_relu_po2", bits=4), Qd("quantized_bits", bits=6, integer=2, symmetric=1, alpha=1.0)]))
   if fam in ("auto_po2", "frozen"):
@@ -74,8 +77,12 @@ def export_model_spec(rnd, fam, focus=None):
       # a fusable conv / depthwise with a bias whose hardware form differs from its value (power of two,
       # auto_po2) in front of a complete batch normalisation
       ub = True
-      bq = rnd.choice([Qd("quantized_po2", bits=4), Qd("quantized_relu_po2", bits=4), Qd("quantized_po2", bits=5, max_value=2.0)] +
-                      ([Qd("quantized_bits", bits=6, integer=2, symmetric=1, alpha="auto_po2")] * 2 if fam == "auto_po2" else []))
+      bq = rnd.choice([Qd("quantized_po2", bits=4), Qd("quantized_relu_po2", bits=4), Qd("quantized_po2", bits=5, max_value=2.0),
+                       ] +      # (3-bit auto_po2 below: q(q(b)) != q(b), the fused bias must be built from q(b))
+                      ([Qd("quantized_bits", bits=6, integer=2, symmetric=1, alpha="auto_po2"),
+                        Qd("quantized_bits", bits=3, integer=0, symmetric=1, alpha="auto_po2"),
+                        Qd("quantized_bits", bits=3, integer=1, symmetric=1, alpha="auto_po2"),
+                        Qd("quantized_bits", bits=3, integer=0, symmetric=1, alpha="auto_po2")] if fam == "auto_po2" else []))
     bq = bq if ub else None
     act = rnd.choice([None, Qd("quantized_relu", bits=4, integer=1), Qd("quantized_bits", bits=6, integer=2, symmetric=1, alpha=1.0)])
     if rank == 4:
@@ -169,9 +176,9 @@ def cases(tier, seed):
     rnd = random.Random(seed * 15485863 + i)
     fam = FAMILIES[i % len(FAMILIES)]
     out.append({"spec": export_model_spec(rnd, fam), "family": fam, "idx": i, "seed": seed})
-  for j in range(14 if tier == "quick" else 120):
+  for j in range(18 if tier == "quick" else 150):
     rnd = random.Random(seed * 32452843 + j)
-    fam = ["fixed", "po2", "auto_po2"][j % 3]
+    fam = ["fixed", "po2", "auto_po2", "auto_po2"][j % 4]
     out.append({"spec": export_model_spec(rnd, fam, focus="bn_fuse"), "family": fam, "idx": n + j, "seed": seed})
   return out
 
